@@ -1,5 +1,45 @@
-(* C09 placeholder *)
-From Connectome Require Import Values NameSet NameLevel.
-Theorem C09_placeholder : True.
-Proof. exact I. Qed.
-Print Assumptions C09_placeholder.
+(* C09 — chaining is associative and never mutates or couples its operands. *)
+From Connectome Require Import Values NameSet NameLevel NameFacts.
+From Connectome Require Bag.
+Local Open Scope list_scope.
+
+(* Why every bracketing gives the same pipeline: a nested Chain (and a LazyChain) in tail position does not connect
+   its own pre-built container, it re-applies its layers one by one to what precedes it (Chain._connect flattens).
+   Hence connecting any tree of nested chains equals connecting the flat sequence of its layers, whatever the layers
+   are (also layers built against the previous one, like cache layers). *)
+Theorem C09_nested_chains_flatten :
+  forall t prev, connect_tree prev t = fold_left connect_item (flatten t) prev.
+Proof. exact connect_tree_flat. Qed.
+Print Assumptions C09_nested_chains_flatten.
+Theorem C09_bracketing_irrelevant :
+  forall t1 t2 prev, flatten t1 = flatten t2 -> connect_tree prev t1 = connect_tree prev t2.
+Proof. exact bracketing_irrelevant. Qed.
+Print Assumptions C09_bracketing_irrelevant.
+
+(* Operands are never coupled: connect_bags works on frozen copies, i.e. on node sets that are disjoint from each other
+   and from everything else; under exactly this condition the connection denotes the substitution of the left outputs
+   into the right operand, the left operand's own denotation is untouched, and the result does not depend on the order
+   of the edges.  (Sharing a layer object between pipelines, or using it twice in one, gives each use its own copy.) *)
+Theorem C09_frozen_operands_independent :
+  forall (c1 c2 : Bag.nd -> Bag.nd) (l r : Bag.bag),
+  (forall n, List.In n (Bag.nodes l) -> List.In n (Bag.nodes r) -> False) ->
+  (forall n, ~ List.In (c1 n) (Bag.nodes l) /\ ~ List.In (c1 n) (Bag.nodes r)) ->
+  (forall n, ~ List.In (c2 n) (Bag.nodes l) /\ ~ List.In (c2 n) (Bag.nodes r)) ->
+  (forall n, snd (c1 n) = snd n) ->
+  (forall e, List.In e (Bag.edges r) -> ~ List.In (Bag.bout e) (Bag.inputs r)) ->
+  forall envl : String.string -> Bag.expr,
+  (forall lo, List.In lo (Bag.outputs l) -> Bag.Den l lo (envl (snd lo))) ->
+  (forall ro e, List.In ro (Bag.outputs r) -> Bag.Den r ro e ->
+     Bag.Den (Bag.connect c1 c2 l r) ro (Bag.subst (Bag.env l envl) e)) /\
+  (forall lo, List.In lo (Bag.pass l r) -> Bag.Den (Bag.connect c1 c2 l r) (c2 lo) (envl (snd lo))).
+Proof. exact Bag.connect_is_substitution. Qed.
+Print Assumptions C09_frozen_operands_independent.
+
+Example C09_example :
+  let a := SLayer {| l_defs := [("x", ("fa", ["x"]))]; l_params := []; l_inherit := Co []; l_optional := []; l_persistent := []; l_cache := false |} in
+  let b := SCache None in
+  let c := SLayer {| l_defs := [("y", ("fc", ["x"]))]; l_params := []; l_inherit := Co []; l_optional := []; l_persistent := []; l_cache := false |} in
+  connect_tree (item_bag empty_bag a) (TChain [TItem b; TChain [TItem c; TLazy [TItem a]]])
+  = connect_tree (item_bag empty_bag a) (TChain [TChain [TItem b; TItem c]; TItem a]).
+Proof. apply bracketing_irrelevant. reflexivity. Qed.
+Print Assumptions C09_example.
